@@ -135,7 +135,7 @@ fn main() {
     sum.rule = "case = (source items with at most one injected Err, adapter chain of depth 0..3 over {filter,map,filter_map}, consumer {try_for_each, step-wise try_for_some, for_each}, optional sink fault position); \
 plus triple-level cases: sources {iterator, N-Triples parser with a syntax error at statement k, store}, sinks {insert_all into a capacity-limited store, remove_all, collect, N-Triples serializer on a failing writer}; \
 plus concrete-end cases: generated N-Triples / N-Quads documents (valid statements with varied spacing and escapes, blank / comment / CR lines, malformed lines at generated positions, last line with or without LF) read by sophia_turtle::parser::{nt,nq} through a chunked Read probe, adapter chains of depth 0..3 over statements, consumers {recording closure failing at item j, insert_all into set datasets, Nt/Nq serializer over a byte-budget / all-or-nothing / Ok(0) io::Write probe}, and the parser pulled on after the failure to observe where it stopped; \
-plus (ids from 1000000) bulk cases: the provided methods insert_all / remove_all / remove_matching / retain_matching / add_to_graph / add_to_dataset on user-defined stores that journal every insert / remove call (set or multiset, remove one or all occurrences, failing on the k-th call, failing while listed), directly, through &mut, GraphAsDataset (as_dataset_mut / into_dataset / new), DatasetGraph (graph_mut / new) and nestings of them, with named quads offered to default-graph-only consumers; and flush cases: {Nt, Nq, Turtle, TriG (plain and pretty), RDF/XML, JSON-LD} serializers over writers failing in write and/or flush (bare, &mut, BufWriter, LineWriter) with a source failing at item k, judged by the order of events in a log shared by source and writer; plus (ids from 2000000) iterator cases: sources that are iterators or multi-item-per-step sources with every kind of size hint (exact, unknown, (0, Some(0)), too small, too large, one-sided) and the Turtle parser (object / predicate lists), under 0..4 layers of adapters and of map_* / filter_map_*(..).into_iter() fed back into the Source API, consumed by try_for_each / step-wise / for_each / for_some closures, add_to_graph / add_to_dataset / insert_all on journaling stores, collect_triples and the Nt / Nq serializers; the methods of the Iterator trait (fold, try_fold, for_each, count, last, nth, sum, max/min, reduce, collect, extend, partition, unzip, find, any, all, position, by_ref, size_hint, skip, step_by, chain, peekable, fuse, enumerate, take, take_while, filter, inspect, zip, flat_map, eq) called on those iterators after k manual next() calls and compared with the same calls on a Vec iterator over the expected sequence; and reuse cases: 2..3 serialize_* calls on ONE serializer {Nt, Nq, Turtle, TriG, RDF/XML, JSON-LD} over a writer that fails in some rounds and recovers, every round judged against a fresh serializer; non-trivial = a fault is actually hit after at least one item was consumed, or a filter dropped something; distinct = distinct printed case".into();
+plus (ids from 1000000) bulk cases: the provided methods insert_all / remove_all / remove_matching / retain_matching / add_to_graph / add_to_dataset on user-defined stores that journal every insert / remove call (set or multiset, remove one or all occurrences, failing on the k-th call, failing while listed), directly, through &mut, GraphAsDataset (as_dataset_mut / into_dataset / new), DatasetGraph (graph_mut / new) and nestings of them, with named quads offered to default-graph-only consumers; and flush cases: {Nt, Nq, Turtle, TriG (plain and pretty), RDF/XML, JSON-LD} serializers over writers failing in write and/or flush (bare, &mut, BufWriter, LineWriter) with a source failing at item k, judged by the order of events in a log shared by source and writer; plus (ids from 2000000) iterator cases: sources that are iterators or multi-item-per-step sources with every kind of size hint (exact, unknown, (0, Some(0)), too small, too large, one-sided) and the Turtle parser (object / predicate lists), under 0..4 layers of adapters and of map_* / filter_map_*(..).into_iter() fed back into the Source API, consumed by try_for_each / step-wise / for_each / for_some closures, add_to_graph / add_to_dataset / insert_all on journaling stores, collect_triples and the Nt / Nq serializers; the methods of the Iterator trait (fold, try_fold, for_each, count, last, nth, sum, max/min, reduce, collect, extend, partition, unzip, find, any, all, position, by_ref, size_hint, skip, step_by, chain, peekable, fuse, enumerate, take, take_while, filter, inspect, zip, flat_map, eq) called on those iterators after k manual next() calls and compared with the same calls on a Vec iterator over the expected sequence; and reuse cases: 2..3 serialize_* calls on ONE serializer {Nt, Nq, Turtle, TriG, RDF/XML, JSON-LD} over a writer that fails in some rounds and recovers, every round judged against a fresh serializer; plus (ids from 3000000) direct-call cases: chains of depth 0..3 built with direct method syntax on the CONCRETE adapter values (to_quads / to_triples, filter_*, map_* and filter_map_* to the same and to the other flavour, filter_items / map_items / filter_map_items; every ordered pair of methods is swept, the same one twice and inverse conversions included) over iterators and batching sources of triples and of quads in named graphs, consumed by a method called directly on the concrete chain (try_for_each_* / try_for_some_* / for_each_* / for_some_* of both trait levels, collect_*, add_to_*, into_iter of map / filter_map), with FnMut closures whose state is the history of their calls (first n, every other, seen-sets, call counters), closures that are partial (defined only on what the previous stage lets through) and a log of every call of every closure: stage k must be called exactly on the items that passed the stages before it, in order; each chain is built a second time with every intermediate value type-erased and both are judged; non-trivial = a fault is actually hit after at least one item was consumed, or a filter dropped something; distinct = distinct printed case".into();
     let base = Rng::new(a.seed);
     let mut cases: Vec<(usize, String)> = vec![];
     let mut seen = std::collections::HashSet::new();
@@ -150,10 +150,17 @@ plus (ids from 1000000) bulk cases: the provided methods insert_all / remove_all
     // the third family of cases (ids from 2_000_000 on): iterators used as sources (every kind of size_hint, the iterators of
     // map_* / filter_map_*(..).into_iter() nested and fed back into the Source API), every method of the Iterator trait on those
     // iterators after manual next() calls, and serializers reused after a failed call
-    let third: Vec<usize> = match a.only { Some(i) if i >= 2_000_000 => vec![i], Some(_) => vec![], None => (0..a.n / 3).map(|j| 2_000_000 + j).collect() };
+    let third: Vec<usize> = match a.only { Some(i) if (2_000_000..3_000_000).contains(&i) => vec![i], Some(_) => vec![], None => (0..a.n / 3).map(|j| 2_000_000 + j).collect() };
     for idx in third {
         let mut r = base.fork(idx as u64);
         match (idx - 2_000_000) % 5 { 0 | 1 => iters::case_a(idx, &mut r, a.only.is_some(), &mut sum, &mut cases, &mut seen), 2 | 3 => iters::case_b(idx, &mut r, a.only.is_some(), &mut sum, &mut cases, &mut seen), _ => flushy::reuse_case(idx, &mut r, a.only.is_some(), &mut sum, &mut cases, &mut seen) }
+    }
+    // the fourth family of cases (ids from 3_000_000 on): chains built with direct method syntax on concrete adapter values
+    // (every adapter method on the result type of every other one), closures with a state, partial closures, call logs
+    let fourth: Vec<usize> = match a.only { Some(i) if i >= 3_000_000 => vec![i], Some(_) => vec![], None => (0..a.n / 3).map(|j| 3_000_000 + j).collect() };
+    for idx in fourth {
+        let mut r = base.fork(idx as u64);
+        direct::case(idx, &mut r, a.only.is_some(), &mut sum, &mut cases, &mut seen);
     }
     for idx in range {
         let mut r = base.fork(idx as u64);
@@ -380,7 +387,7 @@ plus (ids from 1000000) bulk cases: the provided methods insert_all / remove_all
         sum.evaluations += 1;
     }
     if a.only.is_none() {
-        sum.shards = write_shards(&a.out, "From Sophia.Common Require Import Prelude Term.\nFrom Sophia.C03 Require Import Model.\nFrom Sophia.C15 Require Import Model Generic ParserSource SerializerSink EndToEnd Bulk IterSource Reuse.", &cases, a.shards);
+        sum.shards = write_shards(&a.out, "From Sophia.Common Require Import Prelude Term.\nFrom Sophia.C03 Require Import Model.\nFrom Sophia.C15 Require Import Model Generic ParserSource SerializerSink EndToEnd Bulk IterSource Reuse Direct.", &cases, a.shards);
         sum.extra.push(("coq_cases".into(), cases.len().to_string()));
         std::fs::write(format!("{}/summary.json", a.out), sum.to_json()).unwrap();
     }
@@ -1904,5 +1911,392 @@ mod iters {
         let mut c_last: Vec<String> = last.drain(..).map(|a| c_ad(&a)).collect(); c_last.push(match fin.ad() { Some(a) => c_ad(&a), None => "DFilterAll".into() });
         cases.push((idx, format!("iter_meth_ok {} {} {} {k}%nat {c_m} {} {}", c_steps(&g.steps), c_segs(&segs), coq_list(c_last), c_res(&obs.first), c_res(&c_obs))));
         let _ = through;
+    }
+}
+
+
+/// Chains built with DIRECT method syntax on CONCRETE adapter values (ids from 3_000_000): every adapter method of
+/// TripleSource / QuadSource / Source called on the concrete result type of every other one (to_quads / to_triples,
+/// filter_*, map_*, filter_map_* to the same or to the other flavour, *_items), depth 0..3, followed by every consumer
+/// method called directly on the concrete chain; the closures are FnMut with a state (their state is the history of the
+/// items they were called with: counters, seen-sets), some are partial (they misbehave on items that an earlier stage
+/// should have removed), and every closure records the sequence of items it is called with.
+/// The oracle demands: stage k is called exactly on the items that passed the stages before it, in order; the consumer
+/// sees what passed every stage; nothing is touched after the fault; the blame is right.  The same chain is built a
+/// second time with every intermediate value type-erased (so that only trait methods can be reached) and compared.
+mod direct {
+    use super::bulk::{gname, quad_of, spo_of, tpart};
+    use super::{c_outc, c_steps, Outc, Steps};
+    use sophia_api::prelude::*;
+    use sophia_api::quad::Spog;
+    use sophia_api::source::{QuadSource, Source, StreamError, StreamResult, TripleSource};
+    use std::cell::{Cell, RefCell};
+    use std::collections::VecDeque;
+    use std::rc::Rc;
+    use verif_harness::*;
+
+    type T3 = [ST; 3];
+    type Q4 = Spog<ST>;
+    fn n_of(o: &ST) -> u64 { o.lexical_form().unwrap().parse().unwrap() }
+    fn g_of(g: Option<&ST>) -> u64 { match g { None => 0, Some(t) => t.iri().unwrap().as_str().strip_prefix("http://e/g").unwrap().parse().unwrap() } }
+    /// the number an item stands for (1000 * graph + object); the subject and predicate must be the ones `spo_of` builds
+    fn code_t(t: &T3) -> u64 { let n = n_of(&t[2]); if Term::eq(&t[0], &spo_of(n)[0]) && Term::eq(&t[1], &spo_of(n)[1]) { n } else { 900_000 + n } } // 900000 + n: an item whose subject / predicate was altered on its way
+    fn code_q(q: &Q4) -> u64 { 1000 * g_of(q.1.as_ref()) + code_t(&q.0) }
+
+    // ---------- stages ----------
+    #[derive(Clone, Copy, Debug, PartialEq)] pub enum Fl { T, Q }
+    /// predicates: the state of a closure is the list of the items it has been called with so far
+    #[derive(Clone, Copy, Debug, PartialEq)] pub enum FB { Even, Lt(u64), Named, Default, All, Nothing, FirstN(u64), Alternate, Dedup, DedupG, PartialGLt(u64), PartialHalfLt(u64) }
+    #[derive(Clone, Copy, Debug, PartialEq)] pub enum MB { Id, Succ, SetGraph(u64), DropGraph, AddCalls }
+    #[derive(Clone, Copy, Debug, PartialEq)] pub enum FMB { HalfEven, NamedToDefault, LtSucc(u64), FirstNSucc(u64), DedupSucc }
+    pub fn fb(b: FB, log: &[u64], x: u64) -> bool { let (g, n) = (gname(x), tpart(x)); match b {
+        FB::Even => n % 2 == 0, FB::Lt(k) => n < k, FB::Named => g != 0, FB::Default => g == 0, FB::All => true, FB::Nothing => false,
+        FB::FirstN(k) => (log.len() as u64) < k,                 // take the first k items offered
+        FB::Alternate => log.len() % 2 == 0,                     // every other item offered
+        FB::Dedup => !log.iter().any(|y| tpart(*y) == n),        // seen-set over the triple part
+        FB::DedupG => !log.contains(&x),                         // seen-set over the whole item
+        FB::PartialGLt(k) => if g == 0 { true } else { g < k },  // defined on named graphs only (misbehaves elsewhere)
+        FB::PartialHalfLt(k) => if n % 2 == 1 { true } else { n / 2 < k }, // defined on even objects only
+    } }
+    pub fn mb(b: MB, log: &[u64], x: u64) -> u64 { let n = tpart(x); match b { MB::Id => x, MB::Succ => x + 1, MB::SetGraph(k) => 1000 * k + n, MB::DropGraph => n, MB::AddCalls => x + log.len() as u64 } }
+    pub fn fmb(b: FMB, log: &[u64], x: u64) -> Option<u64> { let (g, n) = (gname(x), tpart(x)); match b {
+        FMB::HalfEven => (n % 2 == 0).then_some(1000 * g + n / 2), FMB::NamedToDefault => (g != 0).then_some(n), FMB::LtSucc(k) => (n < k).then_some(x + 1),
+        FMB::FirstNSucc(k) => ((log.len() as u64) < k).then_some(x + 1), FMB::DedupSucc => (!log.iter().any(|y| tpart(*y) == n)).then_some(x + 1) } }
+    #[derive(Clone, Copy, Debug, PartialEq)] pub enum Meth { Conv, FilterX, MapX, FmX, MapCross, FmCross, FilterI, MapI, FmI }
+    pub const ALL_METHS: [Meth; 9] = [Meth::Conv, Meth::FilterX, Meth::MapX, Meth::FmX, Meth::MapCross, Meth::FmCross, Meth::FilterI, Meth::MapI, Meth::FmI];
+    #[derive(Clone, Copy, Debug, PartialEq)] pub enum Beh { C, F(FB), M(MB), FM(FMB) }
+    #[derive(Clone, Copy, Debug, PartialEq)] pub struct Stage { pub meth: Meth, pub beh: Beh, pub from: Fl, pub to: Fl }
+    impl Stage {
+        fn name(&self) -> String { let x = if self.from == Fl::T { "triples" } else { "quads" }; match self.meth {
+            Meth::Conv => if self.from == Fl::T { "to_quads()".into() } else { "to_triples()".into() },
+            Meth::FilterX => format!("filter_{x}({:?})", self.beh), Meth::MapX => format!("map_{x}({:?})", self.beh), Meth::FmX => format!("filter_map_{x}({:?})", self.beh),
+            Meth::MapCross => format!("map_{x}({:?} -> {:?})", self.beh, self.to), Meth::FmCross => format!("filter_map_{x}({:?} -> {:?})", self.beh, self.to),
+            Meth::FilterI => format!("filter_items({:?})", self.beh), Meth::MapI => format!("map_items({:?})", self.beh), Meth::FmI => format!("filter_map_items({:?})", self.beh) } }
+    }
+    /// what the closure of the stage answers when it is offered x after having been offered `log`
+    pub fn apply(st: &Stage, log: &[u64], x: u64) -> Option<u64> {
+        let y = match st.beh { Beh::C => Some(x), Beh::F(b) => fb(b, log, x).then_some(x), Beh::M(b) => Some(mb(b, log, x)), Beh::FM(b) => fmb(b, log, x) };
+        y.map(|y| if st.to == Fl::T { tpart(y) } else { y })
+    }
+    fn chain_name(stages: &[Stage]) -> String { let mut s = String::from("source"); for st in stages { s.push('.'); s.push_str(&st.name()); } s }
+
+    /// the closure handed to an adapter: it owns the description of the stage and shares its log with the harness
+    #[derive(Clone)]
+    pub struct H { st: Stage, log: Rc<RefCell<Vec<u64>>> }
+    impl H {
+        fn call(&self, x: u64) -> Option<u64> { let r = apply(&self.st, &self.log.borrow(), x); self.log.borrow_mut().push(x); r }
+        fn f_t(&self) -> impl FnMut(&T3) -> bool + 'static { let h = self.clone(); move |t: &T3| h.call(code_t(t)).is_some() }
+        fn f_q(&self) -> impl FnMut(&Q4) -> bool + 'static { let h = self.clone(); move |q: &Q4| h.call(code_q(q)).is_some() }
+        fn m_tt(&self) -> impl FnMut(T3) -> T3 + 'static { let h = self.clone(); move |t: T3| spo_of(h.call(code_t(&t)).unwrap()) }
+        fn m_tq(&self) -> impl FnMut(T3) -> Q4 + 'static { let h = self.clone(); move |t: T3| quad_of(h.call(code_t(&t)).unwrap()) }
+        fn m_qq(&self) -> impl FnMut(Q4) -> Q4 + 'static { let h = self.clone(); move |q: Q4| quad_of(h.call(code_q(&q)).unwrap()) }
+        fn m_qt(&self) -> impl FnMut(Q4) -> T3 + 'static { let h = self.clone(); move |q: Q4| spo_of(h.call(code_q(&q)).unwrap()) }
+        fn fm_tt(&self) -> impl FnMut(T3) -> Option<T3> + 'static { let h = self.clone(); move |t: T3| h.call(code_t(&t)).map(spo_of) }
+        fn fm_tq(&self) -> impl FnMut(T3) -> Option<Q4> + 'static { let h = self.clone(); move |t: T3| h.call(code_t(&t)).map(quad_of) }
+        fn fm_qq(&self) -> impl FnMut(Q4) -> Option<Q4> + 'static { let h = self.clone(); move |q: Q4| h.call(code_q(&q)).map(quad_of) }
+        fn fm_qt(&self) -> impl FnMut(Q4) -> Option<T3> + 'static { let h = self.clone(); move |q: Q4| h.call(code_q(&q)).map(spo_of) }
+    }
+
+    // ---------- base sources (concrete types) ----------
+    /// an iterator of results (a Source through the blanket impl) that counts the elements it hands out
+    pub struct CountIter<I> { items: VecDeque<Result<I, MyErr>>, pulls: Rc<Cell<usize>> }
+    impl<I> Iterator for CountIter<I> { type Item = Result<I, MyErr>; fn next(&mut self) -> Option<Self::Item> { let x = self.items.pop_front(); if x.is_some() { self.pulls.set(self.pulls.get() + 1); } x } }
+    /// a user-level Source: several items per step, an error at the end of a step
+    pub struct Batch<I> { steps: VecDeque<(Vec<I>, Option<u64>)>, pulls: Rc<Cell<usize>> }
+    impl<I> Source for Batch<I> {
+        type Item<'x> = I;
+        type Error = MyErr;
+        fn try_for_some_item<E, F>(&mut self, mut f: F) -> StreamResult<bool, MyErr, E> where E: std::error::Error + Send + Sync + 'static, F: FnMut(I) -> Result<(), E> {
+            let Some((items, oe)) = self.steps.pop_front() else { return Ok(false) };
+            self.pulls.set(self.pulls.get() + 1);
+            for x in items { f(x).map_err(StreamError::SinkError)?; }
+            match oe { Some(e) => Err(StreamError::SourceError(MyErr(e))), None => Ok(true) }
+        }
+    }
+    fn iter_of<I>(steps: &Steps, mk: impl Fn(u64) -> I, pulls: &Rc<Cell<usize>>) -> CountIter<I> { CountIter { items: steps.iter().map(|(i, e)| match e { Some(e) => Err(MyErr(*e)), None => Ok(mk(i[0])) }).collect(), pulls: pulls.clone() } }
+    fn batch_of<I>(steps: &Steps, mk: impl Fn(u64) -> I, pulls: &Rc<Cell<usize>>) -> Batch<I> { Batch { steps: steps.iter().map(|(i, e)| (i.iter().map(|x| mk(*x)).collect(), *e)).collect(), pulls: pulls.clone() } }
+
+    // ---------- type erasure: a value of this type can only reach the methods of the traits ----------
+    #[derive(Debug)]
+    struct Carrier(Box<dyn std::any::Any + Send + Sync>);
+    impl std::fmt::Display for Carrier { fn fmt(&self, f: &mut std::fmt::Formatter<'_>) -> std::fmt::Result { write!(f, "carried sink error") } }
+    impl std::error::Error for Carrier {}
+    trait DynS<I> { fn step(&mut self, f: &mut dyn FnMut(I) -> Result<(), Carrier>) -> Result<bool, StreamError<MyErr, Carrier>>; }
+    impl<I, S> DynS<I> for S where S: Source<Error = MyErr>, for<'x> S: Source<Item<'x> = I> {
+        fn step(&mut self, f: &mut dyn FnMut(I) -> Result<(), Carrier>) -> Result<bool, StreamError<MyErr, Carrier>> { self.try_for_some_item(|x| f(x)) }
+    }
+    pub struct Bx<I>(Box<dyn DynS<I>>);
+    impl<I> Source for Bx<I> {
+        type Item<'x> = I;
+        type Error = MyErr;
+        fn try_for_some_item<E, F>(&mut self, mut f: F) -> StreamResult<bool, MyErr, E> where E: std::error::Error + Send + Sync + 'static, F: FnMut(I) -> Result<(), E> {
+            let mut g = |x: I| f(x).map_err(|e| Carrier(Box::new(e)));
+            match self.0.step(&mut g) { Ok(b) => Ok(b), Err(StreamError::SourceError(e)) => Err(StreamError::SourceError(e)), Err(StreamError::SinkError(c)) => Err(StreamError::SinkError(*c.0.downcast::<E>().unwrap())) }
+        }
+    }
+    enum Er { T(Bx<T3>), Q(Bx<Q4>) }
+    fn bt<S>(s: S) -> Er where S: Source<Error = MyErr> + 'static, for<'x> S: Source<Item<'x> = T3> { Er::T(Bx(Box::new(s))) }
+    fn bq<S>(s: S) -> Er where S: Source<Error = MyErr> + 'static, for<'x> S: Source<Item<'x> = Q4> { Er::Q(Bx(Box::new(s))) }
+    fn apply_erased(e: Er, h: &H) -> Er { match e {
+        Er::T(s) => match h.st.meth {
+            Meth::Conv => bq(s.to_quads()), Meth::FilterX => bt(s.filter_triples(h.f_t())), Meth::MapX => bt(s.map_triples(h.m_tt())), Meth::FmX => bt(s.filter_map_triples(h.fm_tt())),
+            Meth::MapCross => bq(s.map_triples(h.m_tq())), Meth::FmCross => bq(s.filter_map_triples(h.fm_tq())),
+            Meth::FilterI => bt(s.filter_items(h.f_t())), Meth::MapI => bt(s.map_items(h.m_tt())), Meth::FmI => bt(s.filter_map_items(h.fm_tt())) },
+        Er::Q(s) => match h.st.meth {
+            Meth::Conv => bt(s.to_triples()), Meth::FilterX => bq(s.filter_quads(h.f_q())), Meth::MapX => bq(s.map_quads(h.m_qq())), Meth::FmX => bq(s.filter_map_quads(h.fm_qq())),
+            Meth::MapCross => bt(s.map_quads(h.m_qt())), Meth::FmCross => bt(s.filter_map_quads(h.fm_qt())),
+            Meth::FilterI => bq(s.filter_items(h.f_q())), Meth::MapI => bq(s.map_items(h.m_qq())), Meth::FmI => bq(s.filter_map_items(h.fm_qq())) },
+    } }
+
+    // ---------- consumers (each one is a method called on the concrete chain) ----------
+    #[derive(Clone, Copy, Debug, PartialEq)]
+    pub enum CK { TryEachX, StepSomeX, ForEachX, ForSomeX, TryEachI, StepSomeI, ForEachI, Collect, AddTo, Drain }
+    pub struct Cx { kind: CK, fault: Option<(usize, u64)> }
+    #[derive(Clone, Debug, PartialEq)]
+    pub struct Run { trace: Vec<u64>, drained: Vec<Result<u64, u64>>, out: Outc }
+    fn rec(trace: &mut Vec<u64>, fault: Option<(usize, u64)>, x: u64) -> Result<(), MyErr> { trace.push(x); match fault { Some((j, e)) if trace.len() == j + 1 => Err(MyErr(e)), _ => Ok(()) } }
+    fn conv(r: Result<(), StreamError<MyErr, MyErr>>) -> Outc { match r { Ok(()) => Outc::Done, Err(StreamError::SourceError(e)) => Outc::Source(e.0), Err(StreamError::SinkError(e)) => Outc::Sink(e.0) } }
+    fn conv_src(r: Result<(), MyErr>) -> Outc { match r { Ok(()) => Outc::Done, Err(e) => Outc::Source(e.0) } }
+    macro_rules! looping { ($call:expr) => { loop { match $call { Ok(true) => continue, Ok(false) => break Ok(()), Err(e) => break Err(e) } } }; }
+    macro_rules! drain_arm {
+        (I, $s:ident, $code:ident, $drained:ident) => {{ $drained = $s.into_iter().map(|r| r.map(|t| $code(&t)).map_err(|e| e.0)).collect(); Outc::Done }};
+        // an erased source polled until it is exhausted, errors included: what the iterators of map_* / filter_map_* do
+        (E, $s:ident, $code:ident, $drained:ident) => {{ loop { match $s.for_some_item(|t| $drained.push(Ok($code(&t)))) { Ok(true) => continue, Ok(false) => break, Err(e) => $drained.push(Err(e.0)) } } Outc::Done }};
+        (N, $s:ident, $code:ident, $drained:ident) => { unreachable!("drain is only generated behind map_* / filter_map_*") };
+    }
+    macro_rules! extra_arms {
+        (A, T, $s:ident, $cx:ident, $trace:ident) => { match $cx.kind {
+            CK::ForSomeX => conv_src(looping!($s.for_some_triple(|t: T3| $trace.push(code_t(&t))))),
+            CK::TryEachI => conv($s.try_for_each_item(|t: T3| rec(&mut $trace, $cx.fault, code_t(&t)))),
+            CK::StepSomeI => conv(looping!($s.try_for_some_item(|t: T3| rec(&mut $trace, $cx.fault, code_t(&t))))),
+            CK::ForEachI => conv_src($s.for_each_item(|t: T3| $trace.push(code_t(&t)))),
+            CK::Collect => match $s.collect_triples::<Vec<T3>>() { Ok(v) => { $trace = v.iter().map(code_t).collect(); Outc::Done } Err(StreamError::SourceError(e)) => Outc::Source(e.0), Err(StreamError::SinkError(e)) => match e {} },
+            CK::AddTo => { let mut v: Vec<T3> = vec![]; let r = $s.add_to_graph(&mut v); $trace = v.iter().map(code_t).collect(); match r { Ok(n) => { if n != v.len() { $trace.push(777_777); /* the count returned is not the number of items added */ } Outc::Done } Err(StreamError::SourceError(e)) => Outc::Source(e.0), Err(StreamError::SinkError(e)) => match e {} } }
+            _ => unreachable!(),
+        } };
+        (A, Q, $s:ident, $cx:ident, $trace:ident) => { match $cx.kind {
+            CK::ForSomeX => conv_src(looping!($s.for_some_quad(|q: Q4| $trace.push(code_q(&q))))),
+            CK::TryEachI => conv($s.try_for_each_item(|q: Q4| rec(&mut $trace, $cx.fault, code_q(&q)))),
+            CK::StepSomeI => conv(looping!($s.try_for_some_item(|q: Q4| rec(&mut $trace, $cx.fault, code_q(&q))))),
+            CK::ForEachI => conv_src($s.for_each_item(|q: Q4| $trace.push(code_q(&q)))),
+            CK::Collect => match $s.collect_quads::<Vec<Q4>>() { Ok(v) => { $trace = v.iter().map(code_q).collect(); Outc::Done } Err(StreamError::SourceError(e)) => Outc::Source(e.0), Err(StreamError::SinkError(e)) => match e {} },
+            CK::AddTo => { let mut v: Vec<Q4> = vec![]; let r = $s.add_to_dataset(&mut v); $trace = v.iter().map(code_q).collect(); match r { Ok(n) => { if n != v.len() { $trace.push(777_777); /* the count returned is not the number of items added */ } Outc::Done } Err(StreamError::SourceError(e)) => Outc::Source(e.0), Err(StreamError::SinkError(e)) => match e {} } }
+            _ => unreachable!(),
+        } };
+        (B, $fl:tt, $s:ident, $cx:ident, $trace:ident) => { unreachable!("chains of depth 3 are consumed by the basic consumers") };
+    }
+    /// $it: I = the value is a MapSource / FilterMapSource (into_iter exists), N = it is not, E = it is erased; $cs: A = every consumer, B = the basic ones
+    macro_rules! consume {
+        (T, $s:ident, $cx:expr, $it:tt, $cs:tt) => {{
+            let mut s = $s; let cx: &Cx = $cx; let mut trace: Vec<u64> = vec![]; let mut drained: Vec<Result<u64, u64>> = vec![];
+            let out = match cx.kind {
+                CK::TryEachX => conv(s.try_for_each_triple(|t: T3| rec(&mut trace, cx.fault, code_t(&t)))),
+                CK::StepSomeX => conv(looping!(s.try_for_some_triple(|t: T3| rec(&mut trace, cx.fault, code_t(&t))))),
+                CK::ForEachX => conv_src(s.for_each_triple(|t: T3| trace.push(code_t(&t)))),
+                CK::Drain => drain_arm!($it, s, code_t, drained),
+                _ => extra_arms!($cs, T, s, cx, trace),
+            };
+            Run { trace, drained, out }
+        }};
+        (Q, $s:ident, $cx:expr, $it:tt, $cs:tt) => {{
+            let mut s = $s; let cx: &Cx = $cx; let mut trace: Vec<u64> = vec![]; let mut drained: Vec<Result<u64, u64>> = vec![];
+            let out = match cx.kind {
+                CK::TryEachX => conv(s.try_for_each_quad(|q: Q4| rec(&mut trace, cx.fault, code_q(&q)))),
+                CK::StepSomeX => conv(looping!(s.try_for_some_quad(|q: Q4| rec(&mut trace, cx.fault, code_q(&q))))),
+                CK::ForEachX => conv_src(s.for_each_quad(|q: Q4| trace.push(code_q(&q)))),
+                CK::Drain => drain_arm!($it, s, code_q, drained),
+                _ => extra_arms!($cs, Q, s, cx, trace),
+            };
+            Run { trace, drained, out }
+        }};
+    }
+    /// one level of direct method calls per token after the `;` (F = every method, C = the six methods of the triple / quad traits)
+    macro_rules! chain {
+        ($fl:tt, $s:ident, $hs:expr, $i:expr, $cx:expr, $it:tt, $cs:tt;) => { consume!($fl, $s, $cx, $it, $cs) };
+        (T, $s:ident, $hs:expr, $i:expr, $cx:expr, $it:tt, $cs:tt; F $($rest:tt)*) => {
+            if $i >= $hs.len() { consume!(T, $s, $cx, $it, $cs) } else { let h: &H = &$hs[$i]; match h.st.meth {
+                Meth::Conv => { let s2 = $s.to_quads(); chain!(Q, s2, $hs, $i + 1, $cx, N, $cs; $($rest)*) }
+                Meth::FilterX => { let s2 = $s.filter_triples(h.f_t()); chain!(T, s2, $hs, $i + 1, $cx, N, $cs; $($rest)*) }
+                Meth::MapX => { let s2 = $s.map_triples(h.m_tt()); chain!(T, s2, $hs, $i + 1, $cx, I, $cs; $($rest)*) }
+                Meth::FmX => { let s2 = $s.filter_map_triples(h.fm_tt()); chain!(T, s2, $hs, $i + 1, $cx, I, $cs; $($rest)*) }
+                Meth::MapCross => { let s2 = $s.map_triples(h.m_tq()); chain!(Q, s2, $hs, $i + 1, $cx, I, $cs; $($rest)*) }
+                Meth::FmCross => { let s2 = $s.filter_map_triples(h.fm_tq()); chain!(Q, s2, $hs, $i + 1, $cx, I, $cs; $($rest)*) }
+                Meth::FilterI => { let s2 = $s.filter_items(h.f_t()); chain!(T, s2, $hs, $i + 1, $cx, N, $cs; $($rest)*) }
+                Meth::MapI => { let s2 = $s.map_items(h.m_tt()); chain!(T, s2, $hs, $i + 1, $cx, I, $cs; $($rest)*) }
+                Meth::FmI => { let s2 = $s.filter_map_items(h.fm_tt()); chain!(T, s2, $hs, $i + 1, $cx, I, $cs; $($rest)*) }
+            } }
+        };
+        (Q, $s:ident, $hs:expr, $i:expr, $cx:expr, $it:tt, $cs:tt; F $($rest:tt)*) => {
+            if $i >= $hs.len() { consume!(Q, $s, $cx, $it, $cs) } else { let h: &H = &$hs[$i]; match h.st.meth {
+                Meth::Conv => { let s2 = $s.to_triples(); chain!(T, s2, $hs, $i + 1, $cx, N, $cs; $($rest)*) }
+                Meth::FilterX => { let s2 = $s.filter_quads(h.f_q()); chain!(Q, s2, $hs, $i + 1, $cx, N, $cs; $($rest)*) }
+                Meth::MapX => { let s2 = $s.map_quads(h.m_qq()); chain!(Q, s2, $hs, $i + 1, $cx, I, $cs; $($rest)*) }
+                Meth::FmX => { let s2 = $s.filter_map_quads(h.fm_qq()); chain!(Q, s2, $hs, $i + 1, $cx, I, $cs; $($rest)*) }
+                Meth::MapCross => { let s2 = $s.map_quads(h.m_qt()); chain!(T, s2, $hs, $i + 1, $cx, I, $cs; $($rest)*) }
+                Meth::FmCross => { let s2 = $s.filter_map_quads(h.fm_qt()); chain!(T, s2, $hs, $i + 1, $cx, I, $cs; $($rest)*) }
+                Meth::FilterI => { let s2 = $s.filter_items(h.f_q()); chain!(Q, s2, $hs, $i + 1, $cx, N, $cs; $($rest)*) }
+                Meth::MapI => { let s2 = $s.map_items(h.m_qq()); chain!(Q, s2, $hs, $i + 1, $cx, I, $cs; $($rest)*) }
+                Meth::FmI => { let s2 = $s.filter_map_items(h.fm_qq()); chain!(Q, s2, $hs, $i + 1, $cx, I, $cs; $($rest)*) }
+            } }
+        };
+        (T, $s:ident, $hs:expr, $i:expr, $cx:expr, $it:tt, $cs:tt; C $($rest:tt)*) => {
+            if $i >= $hs.len() { consume!(T, $s, $cx, $it, $cs) } else { let h: &H = &$hs[$i]; match h.st.meth {
+                Meth::Conv => { let s2 = $s.to_quads(); chain!(Q, s2, $hs, $i + 1, $cx, N, $cs; $($rest)*) }
+                Meth::FilterX => { let s2 = $s.filter_triples(h.f_t()); chain!(T, s2, $hs, $i + 1, $cx, N, $cs; $($rest)*) }
+                Meth::MapX => { let s2 = $s.map_triples(h.m_tt()); chain!(T, s2, $hs, $i + 1, $cx, I, $cs; $($rest)*) }
+                Meth::FmX => { let s2 = $s.filter_map_triples(h.fm_tt()); chain!(T, s2, $hs, $i + 1, $cx, I, $cs; $($rest)*) }
+                Meth::MapCross => { let s2 = $s.map_triples(h.m_tq()); chain!(Q, s2, $hs, $i + 1, $cx, I, $cs; $($rest)*) }
+                Meth::FmCross => { let s2 = $s.filter_map_triples(h.fm_tq()); chain!(Q, s2, $hs, $i + 1, $cx, I, $cs; $($rest)*) }
+                _ => unreachable!("chains of depth 3 use the methods of the triple / quad traits"),
+            } }
+        };
+        (Q, $s:ident, $hs:expr, $i:expr, $cx:expr, $it:tt, $cs:tt; C $($rest:tt)*) => {
+            if $i >= $hs.len() { consume!(Q, $s, $cx, $it, $cs) } else { let h: &H = &$hs[$i]; match h.st.meth {
+                Meth::Conv => { let s2 = $s.to_triples(); chain!(T, s2, $hs, $i + 1, $cx, N, $cs; $($rest)*) }
+                Meth::FilterX => { let s2 = $s.filter_quads(h.f_q()); chain!(Q, s2, $hs, $i + 1, $cx, N, $cs; $($rest)*) }
+                Meth::MapX => { let s2 = $s.map_quads(h.m_qq()); chain!(Q, s2, $hs, $i + 1, $cx, I, $cs; $($rest)*) }
+                Meth::FmX => { let s2 = $s.filter_map_quads(h.fm_qq()); chain!(Q, s2, $hs, $i + 1, $cx, I, $cs; $($rest)*) }
+                Meth::MapCross => { let s2 = $s.map_quads(h.m_qt()); chain!(T, s2, $hs, $i + 1, $cx, I, $cs; $($rest)*) }
+                Meth::FmCross => { let s2 = $s.filter_map_quads(h.fm_qt()); chain!(T, s2, $hs, $i + 1, $cx, I, $cs; $($rest)*) }
+                _ => unreachable!("chains of depth 3 use the methods of the triple / quad traits"),
+            } }
+        };
+    }
+    // one function per (flavour, base, depth budget): the body is the tree of direct calls
+    fn direct_t_iter2(s: CountIter<T3>, hs: &[H], cx: &Cx) -> Run { chain!(T, s, hs, 0, cx, N, A; F F) }
+    fn direct_q_iter2(s: CountIter<Q4>, hs: &[H], cx: &Cx) -> Run { chain!(Q, s, hs, 0, cx, N, A; F F) }
+    fn direct_t_batch2(s: Batch<T3>, hs: &[H], cx: &Cx) -> Run { chain!(T, s, hs, 0, cx, N, A; F F) }
+    fn direct_q_batch2(s: Batch<Q4>, hs: &[H], cx: &Cx) -> Run { chain!(Q, s, hs, 0, cx, N, A; F F) }
+    fn direct_t_iter3(s: CountIter<T3>, hs: &[H], cx: &Cx) -> Run { chain!(T, s, hs, 0, cx, N, B; C C C) }
+    fn direct_q_iter3(s: CountIter<Q4>, hs: &[H], cx: &Cx) -> Run { chain!(Q, s, hs, 0, cx, N, B; C C C) }
+    fn erased(e: Er, hs: &[H], cx: &Cx) -> Run { let mut e = e; for h in hs { e = apply_erased(e, h); } match e { Er::T(s) => consume!(T, s, cx, E, A), Er::Q(s) => consume!(Q, s, cx, E, A) } }
+
+    // ---------- the oracle: the property itself, item by item ----------
+    #[derive(Clone, Debug, PartialEq)]
+    pub struct Exp { logs: Vec<Vec<u64>>, run: Run, pulled: usize }
+    pub fn oracle(steps: &Steps, stages: &[Stage], fault: Option<(usize, u64)>, drain: bool) -> Exp {
+        let mut logs: Vec<Vec<u64>> = vec![vec![]; stages.len()];
+        let mut trace = vec![]; let mut drained = vec![];
+        for (i, (items, oe)) in steps.iter().enumerate() {
+            for x in items {
+                let mut cur = Some(*x);
+                for (k, st) in stages.iter().enumerate() { let Some(c) = cur else { break }; let r = apply(st, &logs[k], c); if st.beh != Beh::C { logs[k].push(c); } cur = r; } // to_quads / to_triples take no closure: nothing to log
+                if let Some(y) = cur {
+                    if drain { drained.push(Ok(y)); continue; }
+                    trace.push(y);
+                    if let Some((j, e)) = fault { if trace.len() == j + 1 { return Exp { logs, run: Run { trace, drained, out: Outc::Sink(e) }, pulled: i + 1 } } }
+                }
+            }
+            if let Some(e) = oe { if drain { drained.push(Err(*e)); } else { return Exp { logs, run: Run { trace, drained, out: Outc::Source(*e) }, pulled: i + 1 } } }
+        }
+        Exp { logs, run: Run { trace, drained, out: Outc::Done }, pulled: steps.len() }
+    }
+
+    // ---------- generation ----------
+    fn gen_fb(r: &mut Rng, prev: Option<&Stage>) -> FB {
+        // a partial predicate right behind the stage that establishes its domain
+        if let Some(p) = prev { match p.beh { Beh::F(FB::Named) if r.chance(2, 3) => return FB::PartialGLt(1 + r.below(3) as u64), Beh::F(FB::Even) if r.chance(2, 3) => return FB::PartialHalfLt(1 + r.below(4) as u64), _ => {} } }
+        match r.below(14) { 0 | 1 => FB::Even, 2 => FB::Lt(2 + r.below(7) as u64), 3 | 4 => FB::Named, 5 => FB::Default, 6 => FB::All, 7 => FB::Nothing, 8 | 9 => FB::FirstN(r.below(4) as u64), 10 => FB::Alternate, 11 => FB::Dedup, 12 => FB::DedupG, _ => if r.chance(1, 2) { FB::PartialGLt(2) } else { FB::PartialHalfLt(3) } }
+    }
+    fn gen_mb(r: &mut Rng) -> MB { match r.below(6) { 0 => MB::Id, 1 => MB::Succ, 2 => MB::SetGraph(r.below(4) as u64), 3 => MB::DropGraph, _ => MB::AddCalls } }
+    fn gen_fmb(r: &mut Rng) -> FMB { match r.below(6) { 0 => FMB::HalfEven, 1 => FMB::NamedToDefault, 2 => FMB::LtSucc(2 + r.below(7) as u64), 3 | 4 => FMB::FirstNSucc(r.below(4) as u64), _ => FMB::DedupSucc } }
+    fn gen_stage(r: &mut Rng, meth: Meth, from: Fl, prev: Option<&Stage>) -> Stage {
+        let other = if from == Fl::T { Fl::Q } else { Fl::T };
+        let (beh, to) = match meth {
+            Meth::Conv => (Beh::C, other),
+            Meth::FilterX | Meth::FilterI => (Beh::F(gen_fb(r, prev)), from),
+            Meth::MapX | Meth::MapI => (Beh::M(gen_mb(r)), from), Meth::MapCross => (Beh::M(gen_mb(r)), other),
+            Meth::FmX | Meth::FmI => (Beh::FM(gen_fmb(r)), from), Meth::FmCross => (Beh::FM(gen_fmb(r)), other),
+        };
+        Stage { meth, beh, from, to }
+    }
+    fn c_fb(b: FB) -> String { match b { FB::Even => "PEven".into(), FB::Lt(k) => format!("(PLt {k})"), FB::Named => "PNamed".into(), FB::Default => "PDefault".into(), FB::All => "PAll".into(), FB::Nothing => "PNothing".into(), FB::FirstN(k) => format!("(PFirstN {k})"), FB::Alternate => "PAlternate".into(), FB::Dedup => "PDedup".into(), FB::DedupG => "PDedupG".into(), FB::PartialGLt(k) => format!("(PPartialGLt {k})"), FB::PartialHalfLt(k) => format!("(PPartialHalfLt {k})") } }
+    fn c_mb(b: MB) -> String { match b { MB::Id => "MId".into(), MB::Succ => "MSucc".into(), MB::SetGraph(k) => format!("(MSetGraph {k})"), MB::DropGraph => "MDropGraph".into(), MB::AddCalls => "MAddCalls".into() } }
+    fn c_fmb(b: FMB) -> String { match b { FMB::HalfEven => "XHalfEven".into(), FMB::NamedToDefault => "XNamedToDefault".into(), FMB::LtSucc(k) => format!("(XLtSucc {k})"), FMB::FirstNSucc(k) => format!("(XFirstNSucc {k})"), FMB::DedupSucc => "XDedupSucc".into() } }
+    fn c_stage(st: &Stage) -> String { let to = if st.to == Fl::T { "FlT" } else { "FlQ" }; match st.beh { Beh::C => if st.to == Fl::Q { "SToQuads".into() } else { "SToTriples".into() }, Beh::F(b) => format!("(SFilter {})", c_fb(b)), Beh::M(b) => format!("(SMap {} {to})", c_mb(b)), Beh::FM(b) => format!("(SFilterMap {} {to})", c_fmb(b)) } }
+    fn c_nums(v: &[u64]) -> String { coq_list(v.iter().map(|x| x.to_string())) }
+
+    pub fn case(idx: usize, r: &mut Rng, verbose: bool, sum: &mut Summary, cases: &mut Vec<(usize, String)>, seen: &mut std::collections::HashSet<String>) {
+        let j = idx - 3_000_000;
+        // depth: two cases out of three have two stages, and their pair of methods is swept systematically (number q of the sweep)
+        let (depth, sweep) = match j % 6 { 0..=3 => (2, true), 4 => (3, false), _ => (r.below(2), false) };
+        let q = j / 6 * 4 + j % 6;
+        let start = if sweep { if (q / 81) % 2 == 0 { Fl::Q } else { Fl::T } } else if r.chance(1, 2) { Fl::Q } else { Fl::T };
+        let core: &[Meth] = &ALL_METHS[..6];
+        let mut stages: Vec<Stage> = vec![]; let mut fl = start;
+        for k in 0..depth {
+            let meth = if sweep { let p = q % 81; if k == 0 { ALL_METHS[p / 9] } else { ALL_METHS[p % 9] } } else if depth == 3 { *r.pick(core) } else { *r.pick(&ALL_METHS) };
+            let st = gen_stage(r, meth, fl, stages.last()); fl = st.to; stages.push(st);
+        }
+        // the source: one item per step (iterator) or several (batching source); named graphs only make sense for quads
+        let batch = depth < 3 && r.chance(1, 2);
+        let gen_item = |r: &mut Rng| -> u64 { let g = if start == Fl::Q { *r.pick(&[0u64, 0, 1, 1, 2, 3]) } else { 0 }; 1000 * g + r.below(8) as u64 };
+        let steps: Steps = if batch {
+            (0..r.below(6)).map(|_| ((0..r.below(5)).map(|_| gen_item(r)).collect(), if r.chance(1, 6) { Some(100 + r.below(50) as u64) } else { None })).collect()
+        } else {
+            let len = 2 + r.below(8);
+            let mut v: Steps = (0..len).map(|_| (vec![gen_item(r)], None)).collect();
+            if r.chance(1, 2) { let k = r.below(len + 1); v.insert(k, (vec![], Some(100 + r.below(50) as u64))); }
+            v
+        };
+        let last_is_map = stages.last().map_or(false, |s| matches!(s.beh, Beh::M(_) | Beh::FM(_)));
+        let kind = if last_is_map && r.chance(1, 5) { CK::Drain } else if depth == 3 { *r.pick(&[CK::TryEachX, CK::StepSomeX, CK::ForEachX]) } else { *r.pick(&[CK::TryEachX, CK::TryEachX, CK::StepSomeX, CK::ForEachX, CK::ForSomeX, CK::TryEachI, CK::StepSomeI, CK::ForEachI, CK::Collect, CK::AddTo]) };
+        let fault = if matches!(kind, CK::TryEachX | CK::StepSomeX | CK::TryEachI | CK::StepSomeI) && r.chance(1, 2) { Some((r.below(4), 200 + r.below(50) as u64)) } else { None };
+        let cx = Cx { kind, fault };
+        let exp = oracle(&steps, &stages, fault, kind == CK::Drain);
+
+        // (1) direct calls on concrete values
+        let handles = |stages: &[Stage]| -> Vec<H> { stages.iter().map(|st| H { st: *st, log: Rc::new(RefCell::new(vec![])) }).collect() };
+        let hs = handles(&stages); let pulls = Rc::new(Cell::new(0usize));
+        let run_d = match (start, batch, depth == 3) {
+            (Fl::T, false, false) => direct_t_iter2(iter_of(&steps, spo_of, &pulls), &hs, &cx), (Fl::Q, false, false) => direct_q_iter2(iter_of(&steps, quad_of, &pulls), &hs, &cx),
+            (Fl::T, true, _) => direct_t_batch2(batch_of(&steps, spo_of, &pulls), &hs, &cx), (Fl::Q, true, _) => direct_q_batch2(batch_of(&steps, quad_of, &pulls), &hs, &cx),
+            (Fl::T, false, true) => direct_t_iter3(iter_of(&steps, spo_of, &pulls), &hs, &cx), (Fl::Q, false, true) => direct_q_iter3(iter_of(&steps, quad_of, &pulls), &hs, &cx),
+        };
+        let logs_d: Vec<Vec<u64>> = hs.iter().map(|h| h.log.borrow().clone()).collect();
+        let pulled_d = pulls.get();
+        // (2) the same chain with every intermediate value type-erased
+        let hs2 = handles(&stages); let pulls2 = Rc::new(Cell::new(0usize));
+        let base2 = match (start, batch) { (Fl::T, false) => bt(iter_of(&steps, spo_of, &pulls2)), (Fl::Q, false) => bq(iter_of(&steps, quad_of, &pulls2)), (Fl::T, true) => bt(batch_of(&steps, spo_of, &pulls2)), (Fl::Q, true) => bq(batch_of(&steps, quad_of, &pulls2)) };
+        let run_e = erased(base2, &hs2, &cx);
+        let logs_e: Vec<Vec<u64>> = hs2.iter().map(|h| h.log.borrow().clone()).collect();
+        let pulled_e = pulls2.get();
+
+        let text = format!("direct chain {} on a {} of {} steps={steps:?} consumer={kind:?} sink_fault={fault:?}", chain_name(&stages), if batch { "batching source" } else { "iterator" }, if start == Fl::T { "triples" } else { "quads (item = 1000 * graph + object)" });
+        if verbose { println!("CASE {idx}: {text}\nDIRECT {run_d:?} logs={logs_d:?} pulled={pulled_d}\nERASED {run_e:?} logs={logs_e:?} pulled={pulled_e}\nORACLE {exp:?}"); }
+        // a failed collect only returns the error: what was consumed is not observable
+        let hide = |mut x: Run| { if kind == CK::Collect && x.out != Outc::Done { x.trace.clear(); } x };
+        let exp_run = hide(exp.run.clone());
+        // every step handed out is counted; a stream that ends normally is found exhausted without a further count
+        let exp_pulled = if kind == CK::Drain { steps.len() } else { exp.pulled };
+        let mut problems: Vec<String> = vec![];
+        for (what, run, logs, pulled) in [("built with direct method calls on the concrete adapter values", &run_d, &logs_d, pulled_d), ("built with every intermediate value type-erased", &run_e, &logs_e, pulled_e)] {
+            let run = hide(run.clone());
+            if run != exp_run { problems.push(format!("[{what}] the consumer saw {:?}{} outcome {:?}; expected {:?}{} outcome {:?}", run.trace, if kind == CK::Drain { format!(" / drained {:?}", run.drained) } else { String::new() }, run.out, exp_run.trace, if kind == CK::Drain { format!(" / drained {:?}", exp_run.drained) } else { String::new() }, exp_run.out)); }
+            for (k, (l, e)) in logs.iter().zip(exp.logs.iter()).enumerate() { if l != e { problems.push(format!("[{what}] the closure of stage #{k} ({}) was called with {l:?}; the items that passed the stages before it are {e:?}", stages[k].name())); } }
+            if pulled != exp_pulled { problems.push(format!("[{what}] {pulled} steps were pulled from the source, expected {exp_pulled}")); }
+        }
+        if !problems.is_empty() { sum.oracle_failures.push((idx.to_string(), format!("{text}: {}", problems.join("; ")))); }
+        sum.evaluations += 1;
+        sum.bump(&format!("direct:depth:{depth}")); sum.bump(&format!("direct:consumer:{kind:?}")); sum.bump(if batch { "direct:source:batching" } else { "direct:source:iterator" });
+        if depth >= 2 { sum.bump(&format!("direct:pair:{:?}.{:?}", stages[depth - 2].meth, stages[depth - 1].meth)); }
+        let n_in: usize = steps.iter().map(|s| s.0.len()).sum();
+        let stateful = stages.iter().any(|s| matches!(s.beh, Beh::F(FB::FirstN(_) | FB::Alternate | FB::Dedup | FB::DedupG | FB::PartialGLt(_) | FB::PartialHalfLt(_)) | Beh::M(MB::AddCalls) | Beh::FM(FMB::FirstNSucc(_) | FMB::DedupSucc)));
+        if stateful { sum.bump("direct:stateful-or-partial-closure"); }
+        let dropped = exp.logs.last().map_or(false, |l| l.len() < n_in) || exp.run.trace.len() + exp.run.drained.len() < n_in;
+        let nontrivial = depth >= 1 && (dropped || (exp.run.out != Outc::Done && !exp.run.trace.is_empty()));
+        if seen.insert(text.clone()) && nontrivial { sum.distinct_nontrivial += 1; }
+        if nontrivial && stateful && sum.samples.len() < 12 && j % 7 == 0 { sum.samples.push(format!("case {idx}: {text} => {:?} logs={logs_d:?}", run_d)); }
+        // the model inside Coq: same trace / outcome / logs / pulled steps
+        let c_chain = coq_list(stages.iter().map(c_stage));
+        let c_logs = coq_list(logs_d.iter().map(|l| c_nums(l)));
+        if kind == CK::Drain {
+            cases.push((idx, format!("direct_drain_ok {} {c_chain} {} {c_logs}", c_steps(&steps), coq_list(run_d.drained.iter().map(|x| match x { Ok(v) => format!("inl {v}"), Err(e) => format!("inr {e}") })))));
+        } else if kind == CK::Collect && run_d.out != Outc::Done {
+            cases.push((idx, format!("direct_hidden_ok {} {c_chain} {} {pulled_d} {c_logs}", c_steps(&steps), c_outc(&run_d.out))));
+        } else {
+            let c_fault = match fault { None => "None".to_string(), Some((j, e)) => format!("(Some ({j}%nat, {e}))") };
+            cases.push((idx, format!("direct_ok {} {c_chain} {c_fault} {} {} {pulled_d} {c_logs}", c_steps(&steps), c_nums(&run_d.trace), c_outc(&run_d.out))));
+        }
     }
 }
